@@ -58,16 +58,21 @@ def run(ctx):
 
     recs = codecfam.first_records(shards, 150)
 
+    base = [r for r in recs if r["ok"] and r["k"] == "dec"][:100]
+    # a type-correct wrong value: the decoded value of another record of the same struct
+    swap = next(((i, o["dec"]) for i, r in enumerate(base) if i >= 20 for o in recs
+                 if o["ok"] and o["k"] == "dec" and o["s"] == r["s"] and o["dec"] != r["dec"]), None)
+
     def mutate(i, r):
         if i == 10 and r["ok"] and r["dec"]:
             r["ok"] = False           # claims a well-formed extended encoding was rejected
             return r
-        if i == 77 and r["ok"]:
-            r["dec"] = r["dec"][:-1] + [[9, 9, 9]]
+        if swap and i == swap[0]:
+            r["dec"] = swap[1]
             return r
         return None
 
-    st = oracle.selftest(ctx, "TarsSchema", "Oracle_Dec", "Oracle.cfg", [r for r in recs if r["ok"] and r["k"] == "dec"][:100], mutate,
+    st = oracle.selftest(ctx, "TarsSchema", "Oracle_Dec", "Oracle.cfg", base, mutate,
                          name="dec-selftest", extra_files={"schemas.json": codecgen.schemas_json(schema)}, deps=codecfam.DEPS)
     rmc = tlc.require_clean(fmc.result(), "MC_TarsSchema")
     import re
